@@ -2,7 +2,7 @@
    prod, sumbool, sumor and andb/orb are mapped to OCaml's; N, positive, Z, nat stay inductive). *)
 Require Import ExtrOcamlBasic.
 Require Import EV.Base.Tac EV.Base.Bytes EV.Base.Res EV.Base.ListX EV.Model.Arith64 EV.Model.Cursor.
-Require Import EV.Model.Types EV.Model.Layout EV.Model.Ser EV.Model.Deser EV.Model.Header EV.Model.Typing EV.Model.Schema EV.Model.Need EV.Model.IO EV.Model.Oracles EV.Model.Hash EV.Model.Loader EV.Model.Derive EV.Model.Prog.
+Require Import EV.Model.Types EV.Model.Layout EV.Model.Ser EV.Model.Deser EV.Model.Header EV.Model.Typing EV.Model.Schema EV.Model.Need EV.Model.IO EV.Model.Oracles EV.Model.Hash EV.Model.Loader EV.Model.Derive EV.Model.Prog EV.Model.Generic.
 Extraction Language OCaml.
 Extraction "../driver/model.ml"
   pad_align_to ac_run std_run ac_init sc_init
@@ -11,4 +11,5 @@ Extraction "../driver/model.ml"
   schema_of debug_ok wf wt units_pow2 deserializable exhausted_in need units_cover max_unit
   run_fail_after run_short run_flush_fail run_zero_after tfeed align_feed load region capacity mmap_flag_bits
   dty_of alloc_eps alloc_full skel refs blocks_at derive_check field_tys variant_tys heap_free std_bounds
-  run_io run_list prog_full_top stream_reader.
+  run_io run_list prog_full_top stream_reader
+  wf_gdef inst_def deser_args dsubst.
